@@ -123,6 +123,9 @@ def index_fields(ctx, w, reach):
                         if t[0] == "call" and t[1] == "<usize as core::default::Default>::default":
                             t = ("const", 0)
                         nsites += 1
+                        if t[0] == "field" and t[2] == fld and t[1][0] == "call" and (w.facts.fns.get(t[1][1], {}).get("output") or {}).get("adt") == adt:
+                            ctx.ok("R1", "%s@copy-of-ctor:%s" % (key, fn), {"field": "%s.%s" % (adt, fld), "from": t[1][1]})
+                            continue
                         ok = t[0] == "const" and isinstance(t[1], int) and t[1] < N
                         ctx.check(ok, "R1", "%s@literal:%s" % (key, fn), "%s builds %s with %s = %s (must be a constant < %d)" % (fn, adt, fld, w.tstr(fn, t), N), loc=w.stmt_loc(fn, (bl, i)),
                                   sample={"field": "%s.%s" % (adt, fld), "bound": N, "writer": fn, "value": w.tstr(fn, t)})
